@@ -92,12 +92,36 @@ def c19(tier, seed):
     ]
 
 
+# ------------------------------------------------------------------------------------------------ C01
+CALIB = {"type": "i2s", "name": "calibration of Fl/Val against the FPU", "spec": "Trace_Calib",
+         "cmd": ["drive", "calib", "{seed}", 2000, "{trace}"]}
+
+
+def c01(tier, seed):
+    return [
+        {"type": "s2i", "kind": "poly", "mc": {"module": "MC_PolyAlgebra", "constants": {"MaxLen": 9, "MaxNZ": q(tier, 2, 3)}, "workers": 1, "timeout": 3400}},
+        CALIB,
+        {"type": "i2s", "name": "drive eval", "spec": "Trace_Eval", "cmd": ["drive", "eval", "{seed}", q(tier, 6000, 30000), "{trace}"],
+         "min_tally": [1000, 100, 300, 0]},
+    ] + ([{"type": "i2s", "name": "drive eval shard %d" % k, "spec": "Trace_Eval",
+           "cmd": ["drive", "eval", str(seed * 1000 + k), 30000, "{trace}"], "min_tally": [1000, 100, 300, 0]} for k in range(1, 12)] if tier == "thorough" else [])
+
+
+ARITH_ASSUME = [
+    "libm ln within 1 ulp (glibc claims < 1 ulp)",
+    "inputs whose partial terms or powers of x leave [2^-1000, 2^1000] are out of scope and skipped (counted by the tallies)",
+    "trace validation samples seeded random and engineered inputs; the exact-grid replay is exhaustive on its grid only",
+]
+
 ORDER_ASSUME = [
     "exhaustive part bounded by the stated N (segments) and M (distinct breakpoint ranks); transferred to f64 by data-independence and checked under the embedding family",
     "trace validation is sampling over seeded random inputs",
 ]
 
 PLANS = {
+    "C01": {"claim": "Horner = power sum = each Estrin scheme as written in poly.rs is model-checked on a coefficient grid for degrees 0..8; the grid is replayed bit-exactly on Poly0..8, PolyN and Log at v=1 under power-of-two scalings; random, cancelling, single-lane, tiny/huge and exact-regime inputs of all forms are judged by TLC with exact rational arithmetic against the stated bound 4(n+2)2^-53 sum|c_i||x|^i (plus the propagated ulp of ln for Log) and against exactness in the exact regime.",
+            "steps": c01, "parallel": 8, "rule": "non-trivial = degree >= 2 with x # 0, or any Log event; tallies in impl_to_spec[].tally = [polynomial events in scope, of which exact regime, log events in scope]",
+            "assumptions": ARITH_ASSUME},
     "C02": {"claim": 'Select (first end strictly greater, else last) is model-checked with its stated consequences on every list of the bounded abstract order; every (list, argument) pair is replayed on the real Piecewise::evaluate under eight order embeddings with probe pieces (piece id and argument bits observed); random f64 lists with their ulp-neighbour alphabets are validated by TLC against the same definition.', "steps": c02, "rule": "s2i: every (list of ends, argument rank) pair of the bounded model under every embedding; non-trivial = some end exceeds the argument or the argument is beyond all ends of a multi-segment list. i2s: one event per random list with its whole query alphabet",
             "assumptions": ORDER_ASSUME},
     "C03": {"claim": "The evaluator cursor machine (Evaluator.tla) is model-checked to closure, so the contract holds for histories of unbounded length in the model; every edge of that graph is replayed on the real PiecewiseEvaluator (contract: answering piece and bits; shape: hook state); independently the implementation's own state space is explored to a fixpoint through the hook and all bounded histories are run hook-free, each transition validated by TLC.", "steps": c03, "rule": "s2i: every edge of the model's closed state graph (state reached by its shortest history, then one query) under every embedding; non-trivial = distinct (ends, cursor, last argument, query) whose query moved the cursor or went backward. i2s: implementation-state fixpoint via the hook, all bounded histories without the hook, random walks",
